@@ -36,6 +36,12 @@ var iterExterns = map[string]func(fv *FuncVerifier, st *State, env *Env, call *a
 var iterMethodValues = map[string]func(fv *FuncVerifier, st *State, env *Env, sel *ast.SelectorExpr) iterInfo{}
 
 func init() {
+	iterExterns["bytes.Lines"] = func(fv *FuncVerifier, st *State, env *Env, call *ast.CallExpr) iterInfo {
+		// yields the lines of its argument: no side effects; the lines themselves are not specified here
+		fv.eval(st, env, call.Args[0])
+		ys := fv.fresh("lines", fv.w.SeqSort("Seq_Int"))
+		return iterInfo{val: fv.fresh("linesiter", SRef), ys: ys, pure: true}
+	}
 	iterExterns["slices.Backward"] = func(fv *FuncVerifier, st *State, env *Env, call *ast.CallExpr) iterInfo {
 		// yields (i, s[i]) for i = len(s)-1 ... 0
 		w := fv.w
